@@ -42,6 +42,13 @@ func runAPIHistory(key uint64, upto int) (steps []apiStep, final *run.Violation,
 	for i := 0; i < n; i++ {
 		steps = append(steps, m.step(g.next()))
 	}
+	if len(steps) > 0 && g.profile != "" {
+		tag := "profile:" + g.profile
+		if g.idx != nil {
+			tag += ":" + g.idx.kind
+		}
+		steps[0].tags = append(steps[0].tags, tag)
+	}
 	return steps, m.finalProbe(), g.malformed
 }
 
